@@ -2550,6 +2550,18 @@ impl CanonicalizeContext {
 			// debug!("convert_to_mmultiscripts (i={}) -- PARENT:\n{}", i, mml_to_string(&parent));
 
 			let i_base = choose_base_of_mmultiscripts(mrow_children, i);
+			if i_base > i {
+				// everything between the empty-base script and the base becomes a prescript (and is removed from the mrow below)
+				// if one of them is something else (e.g., a script with a real base), it would be dropped -- don't convert
+				for &child in &mrow_children[i..i_base] {
+					let child = as_element(child);
+					let child_name = name(&child);
+					if !( (child_name == "msub" || child_name == "msup" || child_name == "msubsup") &&
+					      CanonicalizeContext::is_empty_element(as_element(child.children()[0])) ) {
+						return i + 1;
+					}
+				}
+			}
 			let mut base = as_element(mrow_children[i_base]);
 			// debug!("convert_to_mmultiscripts -- base\n{}", mml_to_string(&base));
 			let base_name = name(&base);
